@@ -126,6 +126,10 @@ def wrappers(theme, e, rng=None, full=True):
         (k1, n1), (k2, n2) = bnames[:2]
         yield subs(e, ((k1, num(0, n1)), (k2, _leaf_idx("ix%d" % n2, ("k",), n2))))
     # output-shape ops
+    if not shape:      # reductions of a SCALAR output (axis=None): numpy keeps the shape () also with keepdims=True
+        for op in T["outred"]:
+            for kd in (False, True):
+                yield outreduce(op, e, None, kd)
     if shape:
         for op in T["outred"]:
             for ax in [None] + list(range(-len(shape), len(shape))):
